@@ -408,8 +408,10 @@ HARNESSES = {
         "fn": live_tree,
         "quick": [{"fixed": {"kind": "switched", "ns": n, "mut": m, "couple": True}, "timeout": 280} for n in (0, 2) for m in (-1, 3, 4, 103)]
         + [{"fixed": {"kind": "switched", "ns": 0, "mut": m, "svc_state": 0, "app_state": 0}, "timeout": 280} for m in (104, 105, 106, 107)]
-        + [{"fixed": {"kind": "switched", "ns": 0, "mut": -1, "svc_state": 0, "app_state": 0, "fstate": f}, "timeout": 280} for f in (1, 2)],
+        + [{"fixed": {"kind": "switched", "ns": 0, "mut": -1, "svc_state": 0, "app_state": 0, "fstate": f}, "timeout": 280} for f in (1, 2)]
+        + [{"fixed": {"kind": "firewalled", "node_name": "firewall_1", "ns": n, "mut": m, "svc_state": 0, "app_state": 0}, "timeout": 280} for n, m in ((0, -1), (0, 3), (2, -1))],
         "thorough": [{"fixed": {"kind": k, "ns": n}, "timeout": 1500} for k in ("switched", "routed") for n in range(4)]
+        + [{"fixed": {"kind": "firewalled", "node_name": "firewall_1", "ns": n, "couple": True}, "timeout": 1500} for n in range(4)]
         + [{"fixed": {"kind": "switched", "ns": n, "couple": True, "fstate": f}, "timeout": 1500} for n in (0, 2) for f in (1, 2)],
         "cover": ["reached", "not_reached", "deleted_target"],
         "bounds": {
@@ -420,8 +422,9 @@ HARNESSES = {
     "actions_reach": {
         "fn": actions_reach,
         "quick": [{"fixed": {"kind": "switched", "ns": n, "couple": True}, "timeout": 280} for n in range(4)]
-        + [{"fixed": {"kind": "switched", "ns": 0, "svc_state": 0, "app_state": 0, "fstate": f}, "timeout": 280} for f in (1, 2)],
-        "thorough": [{"fixed": {"kind": k, "ns": n}, "timeout": 1200} for k in ("switched", "routed") for n in range(4)]
+        + [{"fixed": {"kind": "switched", "ns": 0, "svc_state": 0, "app_state": 0, "fstate": f}, "timeout": 280} for f in (1, 2)]
+        + [{"fixed": {"kind": "firewalled", "ns": 0, "svc_state": 0, "app_state": 0}, "timeout": 280}],
+        "thorough": [{"fixed": {"kind": k, "ns": n}, "timeout": 1200} for k in ("switched", "routed", "firewalled") for n in range(4)]
         + [{"fixed": {"kind": "switched", "ns": n, "couple": True, "fstate": f}, "timeout": 1200} for n in range(4) for f in (1, 2)],
         "cover": ["missing_target", "existing_target", "deleted_target"],
         "bounds": "every entry of the generated action map (54 host actions incl. 7 naming missing components; +12 router/ACL actions in the routed topology) x 4 power states x all service/application states; with docs/a.txt deleted and with the folder docs deleted earlier in the episode (node ON in the quick tier)",
